@@ -88,6 +88,11 @@ def junc(payload):
             m = gen.build(dict(spec, sources=[], loads=[]))
             o = facts(m)
             n = len(m.pulses)
+            if rng.random() < 0.5:
+                # the report has been printed before on this object, for another solution (other sources / loads, same frequency)
+                m.current = np.array([complex(rng.uniform(-1, 1), rng.uniform(-1, 1)) for _ in range(n)])
+                m.currents_as_mininec()
+                o['reported_before'] = True
             cur = np.array([complex(rng.uniform(-1, 1), rng.uniform(-1, 1)) * 10 ** rng.uniform(-3, 0) for _ in range(n)])
             m.current = cur
             txt = m.currents_as_mininec()
